@@ -176,7 +176,7 @@ fn build(ch: &mut Chooser, anchor: (u16, u16), positions: &[(u16, u16)]) -> (Vec
     }
     let mut chs = Chooser::new(&[]);
     let sst: Vec<SstString> = SST.iter().map(|s| SstString::plain(s)).collect();
-    let book = BBook { sheets: vec![BSheet::new("S1", cells), BSheet::new("Other", vec![BCell::Number { r: 3, c: 2, xf: 0, v: 9.0 }])], sst_records: sst_records(&mut chs, &sst, 3), ..Default::default() };
+    let book = BBook { sheets: vec![BSheet::new("S1", cells), BSheet::new("Other", vec![BCell::Number { r: 3, c: 2, xf: 0, v: 9.0 }])], sst_records: sst_records(&mut chs, &sst, 3), substream_order: if ch.flag("sheet-substreams-in-reverse-of-boundsheet-order") { vec![1, 0] } else { vec![] }, ..Default::default() };
     let lay = cfb::Layout { v4: ch.flag("cfb.v4"), ..Default::default() };
     let mut stream = workbook_stream(&book);
     if ch.flag("pad-stream-to-regular-sectors") && stream.len() < 4096 { stream.resize(4096, 0); }
